@@ -405,7 +405,7 @@ def selftest():
     binary = vf.build("h-filter")
     work = vf.new_scratch("verif-selftest-")
     try:
-        g = vf.tlc_gen("FilterMC", "gen.cfg", files={"gen.cfg": _cfg("Filter_gen.cfg", (3, 3, 2, 2), 0)}, timeout=900)
+        g = vf.tlc_gen("FilterMC", "gen.cfg", files={"gen.cfg": _cfg("Filter_gen.cfg", (2, 2, 3, 2), 0)}, timeout=900)
         cf = os.path.join(work, "cases.json")
         json.dump([c for c in g.traces if c["kind"] == "IndexedHealthChecks"], open(cf, "w"))
         tp = os.path.join(work, "f.ndjson")
